@@ -2,7 +2,7 @@
 From BM Require Import Base.Tactics Model.Life Proofs.LifeBase Proofs.LifeMonad Proofs.LifeInv Proofs.LifeOps Proofs.LifeMain.
 Local Open Scope Z_scope.
 
-Definition cfg_ex : config := mkcfg 2 false true false false false SoccChild.
+Definition cfg_ex : config := mkcfg 2 false false false true false false false SoccChild.
 
 (* a 2x3 array filled with 5 on allocator 1; a copy; a transposed copy on allocator 2; copy assignment to other extents;
    move assignment between unequal allocators; reextent; swap of equal-allocator arrays; destruction *)
